@@ -295,9 +295,10 @@ class SymExec:
         loc = ("local", p["l"])
         cur_ty = self.body.local_ty(p["l"]) if p["p"] else None
         for e in p["p"]:
-            if isinstance(e, dict) and "f" in e and e["f"] == 0 and cur_ty is not None and cur_ty.k == "adt" and cur_ty.path in TRANSPARENT:
+            if isinstance(e, dict) and "f" in e and e["f"] == 0 and cur_ty is not None and cur_ty.k == "adt" and (cur_ty.path in TRANSPARENT or cur_ty.path in self.fb.flatten):
                 cur_ty = self.fb.ty(e["ty"]) if "ty" in e else None
                 continue                # `.0` of a transparent wrapper is the value itself
+                                        # (of a flattened holder: the fields are the holder's, see facts._compute_flatten)
             if e == "*":
                 cur_ty = cur_ty.to if cur_ty is not None and cur_ty.k in ("ref", "rawptr") and getattr(cur_ty, "to", None) is not None else None
             elif isinstance(e, dict) and "f" in e:
@@ -412,6 +413,13 @@ class SymExec:
             if ak == "adt":
                 if r["path"] in TRANSPARENT and len(ops) == 1:
                     return ops[0]       # `Wrapping(x)` is x: the type only selects wrapping operators
+                if r["path"] in self.fb.flatten and len(ops) == 1:
+                    inner = self.fb.flatten[r["path"]]
+                    x = ops[0]
+                    if x[0] == "agg" and x[1] == "adt" and x[2] == inner:
+                        return ("agg", "adt", r["path"], r["variant"], x[4])
+                    n_in = len(self.fb.adts[inner]["variants"][0]["fields"])
+                    return ("agg", "adt", r["path"], r["variant"], tuple(proj_read(x, ("f", i)) for i in range(n_in)))
                 return ("agg", "adt", r["path"], r["variant"], ops)
             if ak == "closure":
                 return ("agg", "closure", r["path"], 0, ops)
